@@ -228,7 +228,33 @@ def corpus_cases():
     return out
 
 
+def with_translated_masks(ctx, body):
+    """second tie of C05 / C06: the mask functions are recompiled from the current source into Lean and proved equal to the model
+    (harness/translate_normcalc.py → Generated/NormCalc.lean); then the differential part `body` runs.  A generated theorem that no
+    longer checks, with no wrong answer found on the real code, ends in `no-failing-input-found`."""
+    from .. import shapes_static, translate_normcalc
+    offenders, table = shapes_static.static_part(ctx, T=translate_normcalc, stem="NormCalc")
+    n_before = len(ctx.violations)
+    body()
+    if offenders:
+        why = {t["site"]: t.get("why") for t in table if not t["found"]}
+        names = ", ".join("normcalc_" + o + (f" (untranslatable: {why[o]})" if why.get(o) else "") for o in offenders)
+        known = {k.get("signature") for k in C.load_known_findings() if k.get("status") == "known"}
+        if any(v.kind == "concrete" and (v.data or {}).get("signature") not in known for v in ctx.violations[n_before:]):
+            ctx.notes.append("generated mask-function theorems that no longer check: " + names)
+        else:
+            ctx.violation("no-failing-input-found",
+                          "generated mask-function theorem(s) no longer check: " + names + " – the differential run on the real code found no wrong answer",
+                          {"signature": "normcalc-obligation:" + offenders[0], "offenders": offenders, "why": why},
+                          broken="theorem(s) " + ", ".join("PsVerif.Gen.normcalc_" + o for o in offenders) + " (PsVerif/Generated/NormCalc.lean, "
+                                 "recompiled from pysensors/utils/_norm_calc.py)")
+
+
 def run(ctx: C.Ctx, want="C05"):
+    with_translated_masks(ctx, lambda: _run(ctx, want))
+
+
+def _run(ctx: C.Ctx, want="C05"):
     rng = ctx.rng
     if ctx.thorough:
         function_level(ctx, 0, exhaustive_n=3)
